@@ -720,10 +720,13 @@ def run(res, tier, seed, proofs_ok):
                       found_input=False)
 
     # ---- 2b. the explicit card constructed in the model ----
+    csel = list(range(len(cases))) if not quick else \
+        [k for k in range(len(cases)) if k % 2 == 0]
     bad, errs = common.run_case_files(
-        'c15_canon', HEADER, 'tables * table * out', 'check_canon', cases,
-        chunk=30)
-    res.obligation(f'tie:canon ({len(cases)} decks: for every card, the '
+        'c15_canon', HEADER, 'tables * table * out', 'check_canon',
+        [cases[k] for k in csel], chunk=30)
+    bad = [csel[k] for k in bad]
+    res.obligation(f'tie:canon ({len(csel)} decks: for every card, the '
                    'explicit card built by Canon.canon_card — word level and '
                    'as text — parses in the model to the cell of the LIKE '
                    'card)', not bad and not errs,
@@ -736,17 +739,25 @@ def run(res, tier, seed, proofs_ok):
                       {'input': {'deck': text},
                        'theorem_or_correspondence': 'tie:canon'},
                       found_input=False)
-    undefined, errs = common.run_case_files(
+    # informational (how often the construction is defined): on a sample in
+    # the quick tier, on everything in the thorough tier
+    sample = list(range(len(cases))) if not quick else \
+        [k for k in range(len(cases)) if k % 4 == 0]
+    und_s, errs = common.run_case_files(
         'c15_canondef', HEADER, 'tables * table * out', 'canon_defined',
-        cases, chunk=30)
+        [cases[k] for k in sample], chunk=30)
+    undefined = [sample[k] for k in und_s]
+    meta_all, meta = meta, [meta[k] for k in sample]
+    undefined = [sample.index(k) for k in undefined]
     n_struct = sum(1 for _, o in meta if not getattr(o, 'edge', False))
     und_struct = sum(1 for k in undefined if not getattr(meta[k][1], 'edge',
                                                          False))
     res.count('canon-defined:generated-decks', n_struct - und_struct)
     res.count('canon-undefined:generated-decks', und_struct)
     res.count('canon-defined:edge-decks',
-              len(cases) - n_struct - (len(undefined) - und_struct))
+              len(meta) - n_struct - (len(undefined) - und_struct))
     res.count('canon-undefined:edge-decks', len(undefined) - und_struct)
+    meta = meta_all
 
     # ---- 3. split of LIKE cards ----
     uniq = {}
